@@ -6,20 +6,14 @@ import os, re
 
 PARTS = {1: ['array', 'array_ic4', 'segarray'],
          2: ['hset_limp4', 'hset_open8', 'hset_limp'],
-         3: ['hmap_limp4', 'hmap_open8', 'hmmap'],
+         3: ['hmap_limp4', 'hmap_open8', 'hmmap', 'hmap_limp4_xc'],
          4: ['tset_n4', 'tset_n4i', 'tset_n32'],
-         5: ['tmap_n4', 'tmap_n32']}
-NOPS = {'hmap_limp4_xc': 16, 'tmap_n4_xc': 16, 'array': 28, 'array_ic4': 28, 'segarray': 40, 'hset_limp4': 34, 'hset_open8': 34, 'hset_limp': 34, 'hmap_limp4': 30,
+         5: ['tmap_n4', 'tmap_n32', 'tmap_n4_xc']}
+NOPS = {'hmap_limp4_xc': 30, 'tmap_n4_xc': 36, 'array': 28, 'array_ic4': 28, 'segarray': 40, 'hset_limp4': 34, 'hset_open8': 34, 'hset_limp': 34, 'hmap_limp4': 30,
         'hmap_open8': 30, 'hmmap': 30, 'tset_n4': 40, 'tset_n4i': 40, 'tset_n32': 70, 'tmap_n4': 36, 'tmap_n32': 70}
-# known finding on the unchanged tree (known_findings.txt): with momo's DEFAULT extraCheckMode (= assertion) the post-insertion self
-# check pvExtraCheck (HashSet.h:1025-1036, TreeSet.h) re-runs the user's hash/equal/less functors after the insertion is committed,
-# swallows their exception and MOMO_EXTRA_CHECK asserts -> abort instead of the strong guarantee.  The *_xc configurations keep the
-# default mode and are run in their own process; only an abort at a FUNCTOR failure point is attributed to the known finding.
-KNOWN_KEYS = [
-    ('extra-check-functor-throw-aborts',
-     lambda cfg, line: cfg.endswith('_xc') and line.startswith('VIOL abort') and 'kind=f' in line),
-]
-XC = {3: ['hmap_limp4_xc'], 5: ['tmap_n4_xc']}
+# no known findings on the current tree.  (Until b307610 the *_xc configurations - momo's DEFAULT extraCheckMode = assertion - aborted
+# when a functor threw inside the post-insertion self check pvExtraCheck; now they are plain positive tests: the operation completes.)
+KNOWN_KEYS = []
 
 
 def micro_cases(ctx):
@@ -36,6 +30,10 @@ def micro_cases(ctx):
                     cases.append('copyctor %s %d %d' % (c, n, k))
                 if n <= 4:
                     cases.append('intshrink %s %d %d' % (c, n, k))
+        for n, npos in ((2, 3), (4, 5)):          # real TreeSet<TreeNode<4,2>> inserts into a full root leaf: grow / split
+            for pos in range(npos):
+                for k in range(-1, 12):
+                    cases.append('treeins %s %d %d %d' % (c, n, k, pos))
         for k in range(-1, 5):
             cases.append('copyexec %s 1 %d' % (c, k))
             cases.append('moveexec %s 1 %d' % (c, k))
@@ -59,10 +57,6 @@ def oracle_cases(ctx, scale):
                 for i in range(per):
                     nops = NOPS[cfg] if i % 3 else max(6, NOPS[cfg] // 2)
                     out.append((part, '%s %s %s %d %d' % (cfg, c, mode, r.below(10 ** 9), nops)))
-    for part, cfgs in XC.items():
-        for cfg in cfgs:
-            for i in range(2):
-                out.append((part, '%s N t %d %d' % (cfg, r.below(10 ** 9), NOPS[cfg])))
     return out
 
 
